@@ -179,8 +179,14 @@ def random_plan(seed, tier, g, fr, armed=True, extra=None, density=0.6):
                 items.append({'k': 'probe', 'id': ident, 'form': g.choice(['%', 'run', '$'])})
                 procs[ident] = {'exit': 0}
         case[ph] = items
-    act_kind = g.choices(['sys', 'shell', 'empty', 'transformed'], [60, 15, 10, 15])[0]
-    case['act'] = {'lines': {'sys': ['% atc'], 'shell': ['$ atc arg'], 'empty': [],
+    act_kind = g.choices(['sys', 'shell', 'empty', 'transformed', 'source', 'file'], [50, 12, 10, 12, 10, 6])[0]
+    if act_kind == 'source':
+        # the source-interpreter actor: Exactly stores the source in a file of its own (not in act/, tmp/ or result/)
+        case['conf'].append({'k': 'real', 'text': 'actor = source % atc'})
+    elif act_kind == 'file':
+        case['conf'].append({'k': 'real', 'text': 'actor = file % atc'})
+    case['act'] = {'lines': {'sys': ['% atc'], 'shell': ['$ atc arg'], 'empty': [], 'source': ['source line one', 'line two'],
+                             'file': ['interpreted.src an-argument'],
                              # the program of [act] has a transformation: result/stdout holds the transformed
                              # output, result/stderr and result/exit-code what the action wrote / exited with
                              'transformed': ['% atc', '  -transformed-by char-case -to-upper']}[act_kind]}
@@ -257,6 +263,7 @@ def execute_plain(plan, scratch):
     case_rel = 'cases/one/t.case' if launch.get('elsewhere') else 't.case'
     for name, ftext in files.items():
         w.write('home/' + os.path.join(os.path.dirname(case_rel), name), ftext)
+    w.write('home/' + os.path.join(os.path.dirname(case_rel), 'interpreted.src'), 'source for the file actor\n')
     start = w.home
     if launch.get('elsewhere'):
         start = os.path.join(w.home, 'start')
